@@ -33,11 +33,13 @@ func specC17() *PropSpec {
 }
 
 func specC09() *PropSpec {
-	b := "all integer points (|coordinate| < 2^61 internal units) outside the grid or within 2-3 pixels of a border inside it; accepted built-in sets x ids; float->int step abstracted (quantified over its integer result)"
+	b := "every integer point whose ordinates are each within 2-3 pixels of a border of their axis (inside or outside) or arbitrarily far outside (|c| < 2^61 internal units); float->int step abstracted (quantified over its integer result)"
 	return &PropSpec{
 		ID:       "C09",
 		NeedsGen: true,
 		Obligations: []Obligation{
+			{Harness: "VerifC09InsertPointNear", Pkg: "pointindex", Mode: "math", Tiers: "both", Covers: []string{"accepted", "rejected"},
+				Desc: "synthetic grids (4x4 origins, deepest id 0..2): every point within two pixels of a border on either side, pixel addresses case-split", Bounds: "48 grids x 8x8 pixel addresses around the borders x every sub-pixel position"},
 			{Harness: "VerifC09InsertPointQuick", Pkg: "pointindex", Mode: "math", Tiers: "quick", Covers: []string{"accepted", "rejected"},
 				Desc: "InsertPoint accepts exactly the points of the half-open pixel grid; ids {0, mid, max} of every accepted built-in set", Bounds: b},
 			{Harness: "VerifC09InsertPointThorough", Pkg: "pointindex", Mode: "math", Tiers: "thorough", Covers: []string{"accepted", "rejected"},
@@ -148,12 +150,16 @@ func specC05() *PropSpec {
 			pipeObl("VerifC05Ring3Full", "thorough", "any 3-vertex ring, all sub-pixel positions, two levels", "n=3, 2x2 px window, 2^-10 px lattice, ids {0,1}", "checked"),
 			pipeObl("VerifC05Ring4Edgy", "thorough", "any 4-vertex ring on pixel borders/corners/centres", "n=4, 2x2 px window, sub-pixel positions {0,1/2}, id {0}", "checked"),
 			pipeObl("VerifC05ThinShellHole", "both", "template: thin shell collapsing at tile matrix 0 only, with a triangular hole", "shell 4 + hole 3 vertices in pixels (7,7),(8,7), corner positions jittering on the 1/8 px lattice (valid by construction), ids {0,1}", "checked"),
-			pipeObl("VerifC05BowtieHole", "both", "template: fixed square shell with a self-crossing four-vertex hole (one vertex per pixel of the window, Z order)", "hole vertices pinned to pixels (7,7),(8,7),(7,8),(8,8), sub-pixel positions {1/4,3/4}, ids {0,1}", "checked"),
+			pipeObl("VerifC05BowtieHole", "both", "template: fixed square shell with a self-crossing four-vertex hole (one vertex per pixel of the window, Z order)", "hole vertices in pixels (5,5),(10,5) jittering on the 1/8 px lattice, the other two on pixel centres of (5,10),(10,10), ids {1,0}", "checked"),
 			func() Obligation {
-				o := pipeObl("VerifC05BowtieHoleEighth", "thorough", "same on the 1/8 px lattice with three tile matrices (time-boxed)", "hole vertices pinned to 4 pixels, 1/8 px lattice, ids {0,1,2}; time box 20 min", "checked")
+				o := pipeObl("VerifC05BowtieHoleEighth", "thorough", "all four hole vertices on the 1/8 px lattice, tile matrix 1 (time-boxed)", "hole vertices pinned to 4 pixels, 1/8 px lattice, id {1}; time box 20 min", "checked")
 				o.DeadlineSec = 1200
 				return o
 			}(),
+			{Harness: "VerifC05HitLookupRD", Pkg: "snap", Mode: "bits", Tiers: "experimental", Internal: true, MaxPaths: 12, TimeoutMs: 120000, DeadlineSec: 600,
+				Desc: "O-7: NetherlandsRDNewQuad id 14: the solver searches pixels whose int->float->int round trip is off (exact IEEE-754 semantics); for every pixel found the repeated-vertex lookup of ring splitting must still find the emitted centre", Bounds: "all 2^52 pixel addresses of level 26 as search space; at most 12 witnesses / 10 min"},
+			{Harness: "VerifC05HitLookupWebMercator", Pkg: "snap", Mode: "bits", Tiers: "experimental", Internal: true, MaxPaths: 12, TimeoutMs: 120000, DeadlineSec: 600,
+				Desc: "O-7 on WebMercatorQuad id 17", Bounds: "all pixel addresses of level 29 as search space; at most 12 witnesses / 10 min"},
 			pipeObl("VerifC05Ring5Centre", "thorough", "any 5-vertex ring on pixel centres", "n=5, 3x3 px window, pixel centres, ids {0,1}", "checked"),
 			pipeObl("VerifC05Hole", "thorough", "any shell + hole of 3 vertices each", "3+3 vertices, 2x2 px window, sub-pixel positions {0,1/2}, id {0}", "checked"),
 		}}
@@ -169,7 +175,7 @@ func specC06() *PropSpec {
 			pipeObl("VerifC06Tiny", "both", "rings of one and two points", "n=1..2, 2x2 px window, all sub-pixel positions", "ran"),
 			pipeObl("VerifC06Ring4Edgy", "thorough", "any 4-vertex ring on pixel borders/corners/centres (repeated vertices, spikes, zig-zags included)", "n=4, 2x2 px window, sub-pixel positions {0,1/2}, id {0}", "ran"),
 			pipeObl("VerifC06ThinShellHole", "both", "template: thin shell collapsing at tile matrix 0 only, with a triangular hole (valid polygon)", "shell 4 + hole 3 vertices in pixels (7,7),(8,7), corner positions jittering on the 1/8 px lattice (valid by construction), ids {0,1},{1,0},{1}, all flags", "ran"),
-			pipeObl("VerifC06BowtieHole", "both", "template: fixed square shell with a self-crossing four-vertex hole", "hole vertices pinned to pixels (7,7),(8,7),(7,8),(8,8), sub-pixel positions {1/4,3/4}, ids {0,1}", "ran"),
+			pipeObl("VerifC06BowtieHole", "both", "template: fixed square shell with a self-crossing four-vertex hole", "hole vertices pinned to pixels (5,5),(10,5),(5,10),(10,10), sub-pixel positions {1/4,3/4}, ids {0,1}", "ran"),
 			pipeObl("VerifC06Ring5Centre", "thorough", "any 5-vertex ring on pixel centres", "n=5, 3x3 px window, pixel centres, ids {0,1}", "ran"),
 			pipeObl("VerifC06Hole", "thorough", "any shell + hole of 3 vertices each", "3+3 vertices, 2x2 px window, sub-pixel positions {0,1/2}, id {0}", "ran"),
 		}}
